@@ -449,7 +449,16 @@ class C08(Prop):
             "10^-k / 10^k with k in 3..12 (norm down to ~1e-70 / up to ~1e70), spread: independent e in [-12,12] — generators additionally of magnitude 1e-3..1e-6, 7 of 8 with truncation "
             "disabled and the state judged with a tolerance RELATIVE to the largest amplitude of the dense reference (1e-8, no floor at one; model tie and SVD contract relative to the "
             "tensor's own magnitude, 1e-9), 1 of 8 with a bond-dimension-only truncation judged by the bond bound; the magnitude of the pair tensor handed to the SVD kernel is counted "
-            "per decade class (scale:pair-tensor ...); observed after every sub-operation "
+            "per decade class (scale:pair-tensor ...); "
+            "plus a driver-configuration family (draw_drive): the TEBD object built with final_time = dt*(n+frac), n in 1..7 and frac in {0, 0.04, 0.3, 0.5, 0.75} "
+            "(exact multiples of the configured step and non-multiples on both sides of the driver's round-up threshold), dt in {0.01 .. 0.3}, every gate of TEBD.exponents "
+            "judged against exp(-i f dt A(x)B) with the CONFIGURED dt, and the history 'all steps driven by run(evaluation_time)' on a third instance with "
+            "evaluation_time 1 / 'inf' / 2..N+1 (dividing, not dividing and exceeding the number of steps N; counted per class run:eval=...), 0-2 single-site "
+            "operators measured at the evaluation points (list or dict; only on trees whose nodes all have one open leg), the final state compared with "
+            "(ordered product of the dense gates)^N psi0, N = n for frac < 0.1 and n+1 otherwise (truncation off; 1 of 5 with truncation: bond bound after the run), "
+            "structure and caller's state as for single steps; plus a few LARGE members with the same driver configurations, oracle only (no model tie): trees of 8-14 "
+            "nodes (dimensions 2-3, own pairwise dense contraction), trees of 3-5 nodes with every bond and physical dimension in 4..7 (pair tensors of several "
+            "thousand entries, two-site generators up to 49x49), and runs of 9-21 steps; observed after every sub-operation "
             "of every gate; (swapmat) swap_gate(d), d = 0..6; plus a malformed stream (non-neighbours, unequal SWAP dimensions, three-site terms, "
             "unknown identifiers, wrong operator size, out-of-range from_lists indices) that both sides must reject at the same place. "
             "non-trivial = a tebd case with a two-site gate or a split case with at least two gates")
@@ -490,7 +499,8 @@ class C08(Prop):
               "bond dimensions within [1, max_bond_dim] under truncation (after every two-site gate and after every step, for random tolerances and for every "
               "tolerance-off idiom of TOL_IDIOMS combined with a binding max_bond_dim); for states whose tensors are scaled over 24 orders of magnitude (uneven gauge, tiny and "
               "huge norm) the comparison is relative to the largest amplitude of the reference (1e-8), so a tiny-norm state is judged as strictly as a normalised one; "
-              "caller's state untouched: dense numpy oracle"),
+              "caller's state untouched; every factor built with the configured dt for final times that are not multiples of it; the state left by "
+              "run(evaluation_time) over N steps = (ordered product)^N psi0 for every evaluation interval, with operators measured in between: dense numpy oracle"),
     ]
     trusted_base = ["scipy.linalg.expm (validated against an independent series / eigendecomposition exponential, tolerance 1e-9 relative)",
                     "LAPACK SVD: U . (S Vh) contracts back to the input when nothing is truncated = the premise def_holds / tebd_contracts of "
@@ -500,7 +510,9 @@ class C08(Prop):
                     "the initial tensor is the tie (every stored tensor is compared with the einsum of its model diagram over the captured atom values)",
                     "int(i / d) in swap_gate is a float division; equal to floor division for i < 2^53 (the model uses floor division)",
                     "NumPy kron/reshape/tensordot/transpose implement the diagram operations (exercised by comparing every stored tensor with the model diagram)"]
-    assumptions = ["every operator of a tensor product has the physical dimension of its site (a 2-site product with the two dimensions exchanged is silently reshaped by the code and by the model alike)",
+    assumptions = ["the number of steps of a run up to final_time = dt*(n+frac) is n for frac < 0.1 and n+1 otherwise (the driver's documented rule, property C18; "
+                   "frac is drawn away from the threshold)",
+                   "every operator of a tensor product has the physical dimension of its site (a 2-site product with the two dimensions exchanged is silently reshaped by the code and by the model alike)",
                    "SWAP lists are SWAPlist instances (a plain list of tuples, allowed by the type hints, fails in the code with AttributeError)",
                    f"no node is called '{CONTR}' (see known finding {KNOWN_CONTR})"]
 
@@ -538,6 +550,20 @@ class C08(Prop):
             if trunc:
                 c["tol"] = sched[(j // 8) % len(sched)]
             cases.append(c)
+        # driver configurations (draw_drive): final_time an exact multiple / NOT a multiple of the configured step, the steps driven by
+        # run(evaluation_time) with intervals that divide / do not divide / exceed the number of steps, 'inf', with and without measured
+        # operators; the gate-by-gate observation and the model tie are as in the ordinary family
+        for j in range(ctx.scale(16, 160) * budget_scale):
+            cases.append({"kind": "tebd", "seed": rng.randrange(10 ** 9), "nnodes": rng.choice([2, 2, 3, 3, 4, 4, 5]), "nsteps": rng.choice([1, 1, 2]),
+                          "trunc": j % 5 == 4, "malformed": False, "ints": j % 7 == 0, "drive": draw_drive(rng)})
+        # LARGE members (oracle only, no model tie): many nodes (8-14, dimensions 2-3), large tensors / high ranks (3-5 nodes, every
+        # dimension 4-7), many steps; all with a driver configuration, most with truncation disabled
+        for j in range(ctx.scale(4, 30) * budget_scale):
+            big = ["nodes", "dims", "nodes", "dims", "steps"][j % 5]
+            cases.append({"kind": "tebd", "seed": rng.randrange(10 ** 9),
+                          "nnodes": rng.choice([8, 9, 10, 12, 14]) if big == "nodes" else rng.choice([3, 4, 5]) if big == "dims" else rng.choice([2, 3, 4]),
+                          "nsteps": 1, "trunc": j % 6 == 5, "malformed": False, "ints": False, "large": big,
+                          "drive": draw_drive(rng, (9, 12, 16, 20) if big == "steps" else (1, 2, 3, 4, 5))})
         return cases
 
     def nontrivial(self, case):
@@ -555,6 +581,8 @@ class C08(Prop):
                     c["trunc:bond-only-family"] += 1
                 if x.get("scale"):
                     c[f"scale:{x['scale']}" + (":trunc" if x["trunc"] else ":notrunc")] += 1
+                if x.get("drive"):
+                    c["drive-family" + (":large" if x.get("large") else "")] += 1
         c.update(getattr(self, "_stats", {}))
         return dict(c)
 
@@ -666,6 +694,13 @@ class C08(Prop):
             # dimensions >= 2 everywhere, so that the exact rank of a two-site gate is above a small max_bond_dim
             dimc = rng.choice([(2, 3), (3,), (2, 3, 3), (2,), (3, 4)])
             nopen = (1,) if nn <= 2 else (1, 1, 1, 1, 1, 1, 1, 2)
+        large = case.get("large")
+        if large == "nodes":
+            dimc = rng.choice([(2,), (2, 2, 2, 3)]) if nn >= 12 else rng.choice([(2,), (2, 2, 3), (2, 3)])
+            nopen = (1, 1, 1, 1, 1, 1, 1, 0)
+        elif large == "dims":
+            dimc = rng.choice([(4, 5), (5, 6), (4, 6, 7), (6,), (4, 5, 6, 7)])
+            nopen = (1,)
         ops = gen_build(rng, nn, nopen_choices=nopen, dim_choices=dimc)
         if case.get("contr_name"):
             # rename a node that will not take part in the first two-site gate to the reserved name
@@ -692,6 +727,12 @@ class C08(Prop):
         spec = gen_spec(rng, site_dims, edges, rng.randrange(1, 6), allow3=False, from_lists_p=0.25,
                         mats_kinds=("diag",) if ghz else ("nil",) if case.get("ints") else
                         ("gen", "gen", "real", "herm", "nil", "tiny") if case.get("scale") else ("gen", "gen", "real", "herm", "nil"))
+        drive = case.get("drive")
+        if drive:
+            # a step size that keeps the growth of the non-unitary factors over up to ~20 steps within double range
+            spec["dt"] = rng.choice([0.1, 0.05, 0.3, 0.125, 0.01, 0.2] if drive["nrun"] <= 8 else [0.05, 0.01, 0.02])
+        # the final time handed to the constructor: nsteps steps exactly (ordinary families) or the driver configuration's
+        final_time = spec["dt"] * case["nsteps"] if not drive else spec["dt"] * (drive["nrun"] + drive["frac"])
         if case.get("contr_name") and edges:
             a, b = edges[0]
             spec["mats"] += [[site_dims[a], "gen", 1], [site_dims[b], "gen", 2]]
@@ -786,10 +827,17 @@ class C08(Prop):
         if scales is not None:
             ob["scales"] = scales
             ob["tensor_mags"] = {k: float(np.max(np.abs(v))) if v.size else 0.0 for k, v in ob["raws0"].items()}
-        ob["psi0"] = util.dense_ttn(copy.deepcopy(t0), ids)
+        if large:
+            ob["notie"] = True       # LARGE member: judged by the oracle only (the model evaluation of a 14-node / rank-7 instance is not run)
+            ob["large"] = large
+            self._stats[f"large:{large}"] += 1
+            self._stats["large:max-tensor-size " + (lambda m: "<=64" if m <= 64 else "<=512" if m <= 512 else "<=4096" if m <= 4096 else ">4096")(
+                max(int(v.size) for v in ob["raws0"].values()))] += 1
+        ob["psi0"] = dense_tree(copy.deepcopy(t0), ids) if large else util.dense_ttn(copy.deepcopy(t0), ids)
+        ob["final_time"] = final_time
         try:
             mats, tps, splitting = realise_spec(spec)
-            tebd = TEBD(t0, splitting, spec["dt"], spec["dt"] * case["nsteps"], [], svd)
+            tebd = TEBD(t0, splitting, spec["dt"], final_time, [], svd)
         except Exception as e:  # noqa
             ob["construct_error"] = f"{type(e).__name__}: {e}"
             return ob
@@ -861,7 +909,7 @@ class C08(Prop):
         # the library's own loop (run_one_time_step) on a second instance: this is what the oracle judges;
         # it must also give bit-identical tensors to the gate-by-gate run (tie)
         try:
-            tebd2 = TEBD(t0, realise_spec(spec)[2], spec["dt"], spec["dt"] * case["nsteps"], [], svd)
+            tebd2 = TEBD(t0, realise_spec(spec)[2], spec["dt"], final_time, [], svd)
             loop_states = []
             for _ in range(case["nsteps"]):
                 tebd2.run_one_time_step()
@@ -875,7 +923,37 @@ class C08(Prop):
         except Exception as e:  # noqa
             ob["loop_error"] = f"{type(e).__name__}: {e}"
             ob["loop_identical"] = ob["loop_error"]
+        if drive:
+            ob["run"] = self._run_driven(t0, spec, final_time, svd, drive, ids, site_dims, rng, snap0,
+                                         measurable=all(v == 1 for v in nopen_of.values()))
         return ob
+
+    def _run_driven(self, t0, spec, final_time, svd, drive, ids, site_dims, rng, snap0, measurable=True):
+        """the history 'construct with (dt, final_time, operators), drive all steps with run(evaluation_time)' on a third instance;
+        operators are measured only on trees whose nodes all have exactly one open leg (the precondition of the library's expectation value)"""
+        from pytreenet.time_evolution.tebd import TEBD
+        out = {"drive": drive}
+        sites = sorted(site_dims)
+        opspec = [[s, [site_dims[s], "herm", rng.randrange(10 ** 6)]] for s in (rng.choice(sites) for _ in range(drive["nops"] if measurable else 0))]
+        out["opspec"] = opspec
+        try:
+            operators = [TensorProduct({s: build_mat(e)}) for s, e in opspec]
+            if len(operators) == 2 and rng.random() < 0.5:
+                operators = {"first": operators[0], "second": operators[1]}
+            tebd3 = TEBD(t0, realise_spec(spec)[2], spec["dt"], final_time, operators, svd)
+            out["exponents"] = [{"ids": list(g.node_identifiers), "t": np.array(g.operator)} for g in tebd3.exponents]
+            out["dt_reported"] = float(tebd3.time_step_size)
+            out["num_time_steps"] = int(tebd3.num_time_steps)
+            tebd3.run(evaluation_time=drive["ev"], pgbar=False)
+            out["psi"] = self._dense(tebd3.state, ids, tree=True)
+            out["bonds"] = self._bond_dims(tebd3.state)
+            out["structure"] = self._structure(tebd3.state)
+            out["caller_unchanged"] = (snapshot(t0) == snap0)
+            out["results_shape"] = list(np.shape(tebd3.results))
+        except Exception as e:  # noqa
+            import traceback
+            out["error"] = f"{type(e).__name__}: {e} @ {traceback.format_exc()[-300:]}"
+        return out
 
     @staticmethod
     def _structure(t):
@@ -883,8 +961,10 @@ class C08(Prop):
                 "keys_match": sorted(t.nodes) == sorted(t._tensors.data.keys())}
 
     @staticmethod
-    def _dense(t, ids):
+    def _dense(t, ids, tree=False):
         try:
+            if tree or len(ids) > 6:
+                return dense_tree(copy.deepcopy(t), ids)
             return util.dense_ttn(copy.deepcopy(t), ids)
         except Exception as e:  # noqa
             return f"{type(e).__name__}: {e}"
@@ -927,7 +1007,7 @@ class C08(Prop):
         exprs = []
         idx = []
         for i, (c, ob) in enumerate(zip(cases, obs)):
-            if "exception" in ob or "skip" in ob:
+            if "exception" in ob or "skip" in ob or ob.get("notie"):
                 continue
             if c["kind"] == "tebd" and ob.get("temp_collision"):
                 continue      # the temporary identifier collides with a node: no model (known finding / fixed by a fresh identifier)
@@ -1321,7 +1401,77 @@ class C08(Prop):
                         return (f"after step {stepno + 1}: bond above {k} has dimension {dc}, outside [1, {mb}] "
                                 f"(max_bond_dim={mb}, rel_tol={ob['svd'][1]}, total_tol={ob['svd'][2]}, sum_trunc={ob['svd'][4]})")
                 psi = np.array(ss["psi"], dtype=complex)      # continue from the truncated state
+        if ob.get("run") is not None:
+            return self._oracle_run(case, ob, ob["run"], exp, axis, dims, s0)
         return None
+
+    def _oracle_run(self, case, ob, run, exp, axis, dims, s0):
+        """the history 'all steps driven by run(evaluation_time)': every factor is built with the CONFIGURED step dt whatever the final
+        time, and after the run the state is (ordered product of the gates)^N applied to the initial state, N = the number of steps"""
+        drive = run["drive"]
+        desc = (f"TEBD(dt={ob['spec']['dt']}, final_time={ob['final_time']!r} = dt*({drive['nrun']}+{drive['frac']}), "
+                f"{len(run['opspec'])} operator(s)).run(evaluation_time={drive['ev']!r})")
+        if "error" in run:
+            return f"{desc} raised {run['error']}"
+        d = self._oracle_gates(ob["spec"], run["exponents"], dims)
+        if d:
+            return (f"{desc}: TEBD.exponents: {d} [configured time_step_size {ob['spec']['dt']}, the object reports "
+                    f"time_step_size={run['dt_reported']!r}, num_time_steps={run['num_time_steps']}]")
+        if not run.get("caller_unchanged", True):
+            return f"{desc}: the caller's initial state was modified"
+        if run["structure"] != s0:
+            return f"{desc}: identifiers / parent-child relations changed: {self._diff_structure(s0, run['structure'])}"
+        if isinstance(run["psi"], str):
+            return f"{desc}: the final state cannot be contracted: {run['psi']}"
+        n = drive_steps(drive["nrun"], drive["frac"])
+        ev = drive["ev"]
+        self._stats["run:eval=" + ("1" if ev == 1 else "inf" if ev == "inf" else "divides-steps" if n % ev == 0 else
+                                   "exceeds-steps" if ev > n else "does-not-divide-steps")] += 1
+        self._stats["run:final_time " + ("multiple of dt" if drive["frac"] == 0 else "not a multiple of dt")] += 1
+        self._stats["run:steps " + ("1-3" if n <= 3 else "4-8" if n <= 8 else "9-21")] += 1
+        for k, (dc, dp) in run["bonds"].items():
+            if dc != dp:
+                return f"{desc}: bond above {k} has different dimensions at its two ends ({dc}, {dp})"
+        if ob["svd"] is not None:
+            mb = ob["svd"][0]
+            touched = set()
+            for e in exp:
+                if len(e[1]) == 2:
+                    a, b = e[1]
+                    touched.add(a if s0["nodes"][a][0] == b else b)
+            for k in touched:
+                if not 1 <= run["bonds"][k][0] <= mb:
+                    return f"{desc}: after the run the bond above {k} has dimension {run['bonds'][k][0]}, outside [1, {mb}]"
+            return None
+        refs = [np.array(ob["psi0"], dtype=complex)]
+        with np.errstate(all="ignore"):
+            for _ in range(n):
+                psi = refs[-1]
+                for e in exp:
+                    if e[0] == "swap":
+                        a, b = e[1]
+                        if psi.shape[axis[a]] != psi.shape[axis[b]]:
+                            return None
+                        psi = np.swapaxes(psi, axis[a], axis[b])
+                    else:
+                        sites = list(e[1])
+                        psi = apply_local(psi, [axis[s] for s in sites], e[2].reshape([dims[s] for s in sites] * 2))
+                refs.append(psi)
+        psi = refs[-1]
+        if not np.all(np.isfinite(psi)) or float(np.max(np.abs(psi))) > 1e150:
+            self._stats["run:reference-out-of-range"] += 1
+            return None
+        got = run["psi"]
+        scale = max(1.0, float(np.max(np.abs(psi))))
+        if got.shape == psi.shape and np.allclose(got, psi, rtol=1e-8, atol=1e-8 * scale):
+            self._stats["run:state-validated"] += 1
+            return None
+        if got.shape != psi.shape:
+            return f"{desc}: the final state has shape {got.shape}, the reference {psi.shape}"
+        near = [k for k, r in enumerate(refs) if np.allclose(got, r, rtol=1e-8, atol=1e-8 * max(1.0, float(np.max(np.abs(r)))))]
+        return (f"{desc}: the run consists of {n} steps but the final state differs from (ordered product of the dense gates)^{n} applied to the "
+                f"initial state (max diff {float(np.max(np.abs(got - psi))):.3e}, scale {scale:.2e}"
+                + (f"; it equals the reference after {near[0]} step(s)" if near else "") + ")")
 
     @staticmethod
     def _diff_structure(a, b):
